@@ -171,7 +171,7 @@ Lemma classify_fwd c script o :
   | Exit UserAbort => first_stop_is c script (stop_abort c)
   | Exit OptFinished => no_stop c script
   | Raise => first_stop_is c script (stop_raise c)
-  | Exit EvalFinished => False
+  | Exit EvalFinished | Exit NestedFailed => False
   end.
 Proof.
   destruct (run c script 0 None) as [[[o' d] e] k] eqn:Er. unfold outcome_of; cbn. intros <-.
@@ -200,7 +200,8 @@ Theorem classification c script :
   (outcome_of (run c script 0 None) = Exit UserAbort <-> first_stop_is c script (stop_abort c)) /\
   (outcome_of (run c script 0 None) = Raise <-> first_stop_is c script (stop_raise c)) /\
   (outcome_of (run c script 0 None) = Exit OptFinished <-> no_stop c script) /\
-  outcome_of (run c script 0 None) <> Exit EvalFinished.
+  outcome_of (run c script 0 None) <> Exit EvalFinished /\
+  outcome_of (run c script 0 None) <> Exit NestedFailed.
 Proof.
   repeat split.
   - intros H. exact (classify_fwd c script _ H).
@@ -217,6 +218,7 @@ Proof.
     exists [], [StartEval]. now constructor.
   - intros H. exact (classify_fwd c script _ H).
   - intros (d & e & n' & ca' & Hc). rewrite (run_all_continue c _ _ _ _ _ _ _ Hc). reflexivity.
+  - intros H. exact (classify_fwd c script _ H).
   - intros H. exact (classify_fwd c script _ H).
 Qed.
 
